@@ -223,7 +223,13 @@ def run(pid, spec, tier, seed, wd, only, rebase, t_start):
     out_lines = []
     real_viol = []
     known_seen = []
+    SAFETY = ('overflow', 'pointer_dereference', 'pointer_arithmetic', 'array_bounds', 'pointer', 'division-by-zero', 'undefined-shift', 'pointer_primitives', 'NaN', 'unwind')
     for v in violations:
+        if not v['in_baseline'] and spec.get('new_safety_failures_are_violations') and v['job'].jobname in base_p \
+                and v['key'].split('.')[-1] in SAFETY and v['key'].split('.')[0] in (v['job'].enforce or []):
+            # C16: a built-in safety check that appears (and fails) in a function under contract is undefined behaviour
+            # reachable under type-invariant-only preconditions, whether or not the same kind of check existed before
+            v['in_baseline'] = True
         if not v['in_baseline'] and not rebase:
             undecided.append((v['job'].jobname, 'obligation %s failed but is not in the baseline of discharged obligations' % v['key'], ''))
             continue
@@ -236,7 +242,11 @@ def run(pid, spec, tier, seed, wd, only, rebase, t_start):
     if real_viol and not rebase:
         import replay as R
         os.makedirs(os.path.join(ROOT, 'replays', pid), exist_ok=True)
+        seen_paths = set()
         for v in real_viol:
+            safe = (v['job'].jobname, v['key'])
+            if safe in seen_paths: continue
+            seen_paths.add(safe)
             path, found = R.make_replay(pid, v, spec, extracted, sigs, ROOT)
             out_lines.append('VIOLATION property=%s replay=%s%s' % (pid, path, '' if found else ' no-failing-input-found'))
         rc = 1
